@@ -399,7 +399,8 @@ _ADDED4 = {
 }
 _ADDED4["C10"] = (" CborBig.tla: one encoder that grows to tens of megabytes, is read back, reset and used again (strings as "
                   "arithmetic patterns, contents compared by the adapter).")
-_ADDED4["C14"] = " Bursts of 1025-2100 lines accepted before the background thread runs, producers sending while the batch is written."
+_ADDED4["C14"] = (" Bursts of 1025-2100 lines accepted before the background thread runs, producers sending while the batch is written; "
+                  "two no-alloc loggers in a row on the default destination (stderr must stay open).")
 _ADDED4["C16"] = " 32-bit operands reach every variant in registers whose upper half is dirty (callers that narrow 64-bit quantities)."
 _ADDED4["C17"] = " Blocks the tracer has never seen (from the wrapped allocator directly) are resized and released through it."
 _ADDED4["C08"] = " Clients take further references while the scheduler is in use (ThreadSchedAbs!AcqRef) and release them at the end."
